@@ -1,0 +1,182 @@
+//go:build verif
+
+// Contracts for package logreader (comment-only; compiled only with the build tag "verif",
+// read by /verif/engine). Property C06.
+
+package logreader
+
+//@ import serrors "github.com/jamf/regatta/storage/errors"
+
+// The leader's Raft log of a shard as a mathematical function of the index (entries at or below the
+// applied index never change). Entries are compared as values.
+//@ uninterp func logAt(shard uint64, i uint64) raftpb.Entry
+//@ axiom forall s Int, i Int :: logAt(s, i).Index == i
+
+// es == log[from .. from+len(es))
+//@ pure func run(es []raftpb.Entry, shard uint64, from uint64) bool = forall j int :: 0 <= j && j < len(es) ==> es[j] == logAt(shard, from + uint64(j))
+
+// ghost: the shard a cache belongs to
+//@ ghostfield logreader.cache.shard uint64
+
+//@ pure func cacheInv(c *cache) bool = c != nil && c.size > 0 && len(c.buffer) <= c.size && (len(c.buffer) > 0 ==> c.buffer[0].Index >= 1) && run(c.buffer, c.shard, c.buffer[0].Index)
+
+//@ func fixSize
+//@   results res
+//@   ensures [C06.prefix]   res.arr == entries.arr && res.off == entries.off && len(res) <= len(entries)
+//@   ensures [C06.nonempty] len(entries) > 0 ==> len(res) > 0
+//@   modifies nothing
+//@   loop 0 invariant 0 <= i && i <= len(entries) && size >= 0
+
+//@ func (*cache).len
+//@   pure
+//@   requires c != nil
+//@   ensures result == len(c.buffer)
+
+//@ func (*cache).smallestIndex
+//@   pure
+//@   requires c != nil
+//@   ensures len(c.buffer) == 0 ==> result == 0
+//@   ensures len(c.buffer) > 0 ==> result == c.buffer[0].Index
+
+//@ func (*cache).largestIndex
+//@   pure
+//@   requires c != nil
+//@   ensures len(c.buffer) == 0 ==> result == 0
+//@   ensures len(c.buffer) > 0 ==> result == c.buffer[len(c.buffer)-1].Index
+
+//@ func findIndex
+//@   results r
+//@   functype f pure
+//@   requires f != nil && len(entries) > 0
+//@   requires forall j int, k int :: 0 <= j && j <= k && k < len(entries) ==> entries[j].Index <= entries[k].Index
+//@   requires forall x uint64, y uint64 :: f(x) && x <= y ==> f(y)
+//@   ensures 0 <= r && r <= len(entries)
+//@   ensures forall j int :: 0 <= j && j < r ==> !f(entries[j].Index)
+//@   ensures forall j int :: r <= j && j < len(entries) ==> f(entries[j].Index)
+//@   ensures r > 0 ==> !f(entries[r-1].Index)
+//@   ensures r < len(entries) ==> f(entries[r].Index)
+//@   modifies nothing
+
+//@ func findIndex$1
+//@   pure
+//@   functype f pure
+//@   requires *f != nil && 0 <= i && i < len(*entries)
+//@   ensures result == (*f)((*entries)[i].Index)
+
+//@ func (*cache).put$1
+//@   pure
+//@   ensures result == (index > *maxIndex)
+
+//@ func (*cache).get$1
+//@   pure
+//@   ensures result == (index >= logRange.FirstIndex)
+
+//@ func (*cache).get$2
+//@   pure
+//@   ensures result == (index >= logRange.LastIndex)
+
+// get: the cached part of [FirstIndex, LastIndex) as a sub-slice of the buffer, plus the uncovered
+// head (pre) and tail (app) ranges. The end of the requested range lies beyond the cache ([ahead]):
+// the server always asks for [index, applied+1) and the cache never holds entries beyond applied.
+//@ func (*cache).get
+//@   results es, pre, app
+//@   requires cacheInv(c)
+//@   requires 1 <= logRange.FirstIndex && logRange.FirstIndex < logRange.LastIndex
+//@   requires [ahead] len(c.buffer) > 0 ==> c.buffer[len(c.buffer)-1].Index < logRange.LastIndex
+//@   dead return 1
+//@   ensures [C06.get.run]   run(es, c.shard, es[0].Index) && len(es) <= len(c.buffer)
+//@   ensures [C06.get.sub]   len(es) > 0 ==> es.arr == c.buffer.arr && es.off >= c.buffer.off && es.off + len(es) == c.buffer.off + len(c.buffer) && es.off + cap(es) == c.buffer.off + cap(c.buffer)
+//@   ensures [C06.get.head]  len(es) > 0 ==> es[0].Index >= logRange.FirstIndex && es[0].Index >= c.buffer[0].Index && (es[0].Index == logRange.FirstIndex || es[0].Index == c.buffer[0].Index)
+//@   ensures [C06.get.pre]   len(es) > 0 ==> pre == (logRange.FirstIndex < c.buffer[0].Index ? dragonboat.LogRange{FirstIndex: logRange.FirstIndex, LastIndex: c.buffer[0].Index} : dragonboat.LogRange{})
+//@   ensures [C06.get.app]   len(es) > 0 ==> app == (logRange.LastIndex > c.buffer[len(c.buffer)-1].Index + 1 ? dragonboat.LogRange{FirstIndex: c.buffer[len(c.buffer)-1].Index + 1, LastIndex: logRange.LastIndex} : dragonboat.LogRange{})
+//@   ensures [C06.get.miss]  len(es) == 0 ==> (len(c.buffer) == 0 && pre == logRange && app == dragonboat.LogRange{}) || (len(c.buffer) > 0 && c.buffer[len(c.buffer)-1].Index < logRange.FirstIndex && pre == dragonboat.LogRange{} && app == logRange)
+//@   modifies nothing
+
+// makeRoomAndAppend: evict from the front so that the result fits, then append. When part of the old
+// buffer survives the new entries must continue it without a hole.
+//@ func (*cache).makeRoomAndAppend
+//@   requires cacheInv(c) && len(entries) > 0 && len(entries) <= c.size
+//@   requires entries[0].Index >= 1 && run(entries, c.shard, entries[0].Index)
+//@   requires len(c.buffer) > 0 && len(entries) < c.size ==> entries[0].Index == c.buffer[len(c.buffer)-1].Index + 1
+//@   ensures  cacheInv(c)
+//@   ensures  len(c.buffer) > 0 && c.buffer[len(c.buffer)-1] == old(entries[len(entries)-1])
+//@   ensures  (old(len(c.buffer)) > 0 && c.buffer[0].Index >= old(c.buffer[0].Index)) || c.buffer[0] == old(entries[0])
+//@   ensures  [place] fresh(c.buffer) || (c.buffer.arr == old(c.buffer.arr) && c.buffer.off >= old(c.buffer.off) && c.buffer.off + len(c.buffer) == old(c.buffer.off + len(c.buffer)) + len(entries))
+//@   modifies c.buffer, elems(c.buffer, len(c.buffer), cap(c.buffer))
+
+// put: append entries that continue the cached run ([join]: no hole between the cache and the new
+// entries); evicts from the front. Keeps the invariant for every cache size and every batch length.
+//@ func (*cache).put
+//@   requires cacheInv(c)
+//@   requires len(entries) > 0 ==> entries[0].Index >= 1 && run(entries, c.shard, entries[0].Index)
+//@   requires [join] len(c.buffer) > 0 && len(entries) > 0 ==> entries[0].Index <= c.buffer[len(c.buffer)-1].Index + 1
+//@   ensures [C06.put.inv] cacheInv(c)
+//@   ensures [C06.put.top] len(entries) > 0 ==> len(c.buffer) > 0 && c.buffer[len(c.buffer)-1].Index >= old(entries[len(entries)-1].Index) && (c.buffer[len(c.buffer)-1].Index == old(entries[len(entries)-1].Index) || (old(len(c.buffer)) > 0 && c.buffer[len(c.buffer)-1].Index == old(c.buffer[len(c.buffer)-1].Index)))
+//@   ensures [C06.put.bottom] len(entries) > 0 ==> c.buffer[0].Index >= old(entries[0].Index) || (old(len(c.buffer)) > 0 && c.buffer[0].Index >= old(c.buffer[0].Index))
+//@   ensures len(entries) == 0 ==> sameSlice(c.buffer, old(c.buffer))
+//@   ensures [place] fresh(c.buffer) || (c.buffer.arr == old(c.buffer.arr) && c.buffer.off >= old(c.buffer.off) && c.buffer.off + len(c.buffer) >= old(c.buffer.off + len(c.buffer)) && c.buffer.off + len(c.buffer) <= old(c.buffer.off + len(c.buffer)) + len(entries))
+//@   modifies c.buffer, elems(c.buffer, len(c.buffer), cap(c.buffer))
+
+// whether the node host can hand out a log reader for the shard at the time of the call
+//@ uninterp func readerAvail(q logQuerier, shard uint64) bool
+
+//@ iface logreader.logQuerier.GetLogReader
+//@   assumed
+//@   params q, shardID
+//@   results r, err
+//@   ensures err == nil ==> r != nil && readerShard(r) == shardID
+//@   ensures (err == nil) == readerAvail(q, shardID)
+
+// readLog: the three-way decision on the log bounds, then the reader's contiguous run.
+//@ func readLog
+//@   results es, err
+//@   requires q != nil
+//@   ensures [C06.uptodate] err == nil && len(es) == 0 ==> logLast(clusterID) + 1 == logRange.FirstIndex || logRange.FirstIndex >= logRange.LastIndex || logRange.LastIndex > logLast(clusterID) + 1
+//@   ensures [C06.uptodate2] readerAvail(q, clusterID) && logLast(clusterID) + 1 == logRange.FirstIndex ==> err == nil && len(es) == 0
+//@   ensures [C06.behind]   readerAvail(q, clusterID) && logLast(clusterID) + 1 < logRange.FirstIndex ==> err == serrors.ErrLogBehind
+//@   ensures [C06.ahead]    readerAvail(q, clusterID) && logRange.FirstIndex < logFirst(clusterID) && logRange.FirstIndex <= logLast(clusterID) ==> err == serrors.ErrLogAhead
+//@   ensures [C06.run]      err == nil ==> run(es, clusterID, logRange.FirstIndex) && (len(es) > 0 ==> logRange.FirstIndex + uint64(len(es)) <= logRange.LastIndex)
+//@   ensures [C06.fresh]    len(es) > 0 ==> fresh(es)
+//@   ensures err != nil ==> len(es) == 0
+//@   ensures err == nil && len(es) > 0 ==> logFirst(clusterID) <= logRange.FirstIndex
+//@   modifies nothing
+
+//@ func (*Simple).QueryRaftLog
+//@   results es, err
+//@   requires l != nil && l.LogQuerier != nil
+//@   ensures [C06.simple.run] err == nil ==> run(es, clusterID, logRange.FirstIndex) && (len(es) > 0 ==> logRange.FirstIndex + uint64(len(es)) <= logRange.LastIndex)
+//@   ensures [C06.simple.progress] err == nil && logFirst(clusterID) <= logRange.FirstIndex && logRange.FirstIndex < logRange.LastIndex && logRange.LastIndex <= logLast(clusterID) + 1 ==> len(es) >= 1
+//@   modifies nothing
+
+// The per-shard cache object registered for a shard id (the SyncMap creates it on first use).
+//@ uninterp func shardFor(m Ref, k uint64) *shard
+//@ pure func shOf(l *Cached, id uint64) *shard = shardFor(l.ShardCache.shardCache, id)
+
+//@ func util.(*SyncMap).Load[uint64,*logreader.shard]
+//@   assumed
+//@   results v, ok
+//@   requires s != nil
+//@   ensures ok ==> v == shardFor(s, key) && v != nil
+//@   ensures ok            // this map is only built by NewShardCache, with a default function
+//@   modifies nothing
+
+// Cached.QueryRaftLog. Preconditions are the property's own quantifier: the end of the range is
+// applied+1 and the cache holds nothing beyond applied ([ahead]); the compaction event has been
+// delivered before a compacted index is requested ([compacted]: cached entries are still in the log).
+//@ func (*Cached).QueryRaftLog
+//@   results es, err
+//@   requires l != nil && l.LogQuerier != nil && l.ShardCache != nil && l.ShardCache.shardCache != nil
+//@   requires 1 <= logRange.FirstIndex && logRange.FirstIndex <= logRange.LastIndex && logRange.LastIndex <= logLast(clusterID) + 1
+//@   requires [inv]       shOf(l, clusterID) != nil ==> shOf(l, clusterID).cache != nil && cacheInv(shOf(l, clusterID).cache) && shOf(l, clusterID).cache.shard == clusterID
+//@   requires [ahead]     shOf(l, clusterID) != nil && len(shOf(l, clusterID).cache.buffer) > 0 ==> shOf(l, clusterID).cache.buffer[len(shOf(l, clusterID).cache.buffer)-1].Index < logRange.LastIndex
+//@   requires [compacted] shOf(l, clusterID) != nil && len(shOf(l, clusterID).cache.buffer) > 0 ==> logFirst(clusterID) <= shOf(l, clusterID).cache.buffer[0].Index
+//@   ensures [C06.cached.run]      err == nil ==> run(es, clusterID, logRange.FirstIndex) && (len(es) > 0 ==> logRange.FirstIndex + uint64(len(es)) <= logRange.LastIndex)
+//@   ensures [C06.cached.inv]      shOf(l, clusterID) != nil ==> cacheInv(shOf(l, clusterID).cache)
+//@   ensures [C06.cached.top]      shOf(l, clusterID) != nil && len(shOf(l, clusterID).cache.buffer) > 0 ==> shOf(l, clusterID).cache.buffer[len(shOf(l, clusterID).cache.buffer)-1].Index < logRange.LastIndex
+//@   ensures [C06.cached.bottom]   shOf(l, clusterID) != nil && len(shOf(l, clusterID).cache.buffer) > 0 ==> logFirst(clusterID) <= shOf(l, clusterID).cache.buffer[0].Index
+//@   ensures [C06.cached.progress] err == nil && logFirst(clusterID) <= logRange.FirstIndex && logRange.FirstIndex < logRange.LastIndex ==> len(es) >= 1
+//@   ensures [C06.cached.ahead]    readerAvail(l.LogQuerier, clusterID) && shOf(l, clusterID) != nil && logRange.FirstIndex < logFirst(clusterID) && logRange.FirstIndex < logRange.LastIndex ==> err == serrors.ErrLogAhead
+//@   dead return 2
+//@   dead return 4
+//@   dead return 8
+//@   modifies shOf(l, clusterID).cache.buffer, elems(shOf(l, clusterID).cache.buffer, len(shOf(l, clusterID).cache.buffer), cap(shOf(l, clusterID).cache.buffer))
